@@ -358,7 +358,7 @@ def _corr_wrap(ctx, cases):
         if out.startswith('err:') or impl_err:
             ctx.stats.case('wrap:error', _line('wrap', case), nontrivial=False)
             if out != impl_err:
-                ctx.disagree('wrap:error', f'wrap: implementation {impl_err or "succeeds"}, model {out[:40]}',
+                ctx.disagree('wrap:error', f'wrap: implementation {impl_err or "succeeds"}, model {out if out.startswith("err:") else "succeeds"}',
                              {'op': 'wrap', 'case': case})
             continue
         sec = _sections(out)
@@ -449,7 +449,7 @@ def _corr_norm(ctx, cases):
             # partially periodic systems whose padding decision is within the bound of a face are exempt
             if out != impl_err and not _norm_raise_exempt(case):
                 ctx.disagree('norm:error', f'normalize (pbc {case["pbc"]}): implementation {impl_err or "succeeds"}, '
-                             f'model {out[:40]}', replay)
+                             f'model {out if out.startswith("err:") else "succeeds"}', replay)
             continue
         shared = [k for k in new.atoms.view.keys() if np.shares_memory(new.atoms.view[k], system.atoms.view[k])]
         if shared or (_raw_vects(new.box) is not None and np.shares_memory(_raw_vects(new.box), _raw_vects(system.box))):
